@@ -378,7 +378,10 @@ func c4OpenReturnsCombined(c *Ctx, rule string) {
 					return "ret-combined:appended"
 				}
 			case *ssa.MakeSlice:
-				return "ret-combined:fresh"
+				if k, isC := ConstInt(y.Len); isC && k == 0 {
+					return "ret-combined:fresh"
+				}
+				return "ret-combined:?" // sized at run time and filled element by element: not decided here
 			case *ssa.Const:
 				if y.Value == nil {
 					return "ret-combined:fresh"
@@ -388,7 +391,7 @@ func c4OpenReturnsCombined(c *Ctx, rule string) {
 		},
 	})
 	var bad []string
-	nOK := 0
+	nOK, nUnknown := 0, 0
 	for _, sq := range seqs {
 		toks := strings.Split(sq, " ; ")
 		last := toks[len(toks)-1]
@@ -411,9 +414,11 @@ func c4OpenReturnsCombined(c *Ctx, rule string) {
 		case last == "ret-err":
 		case orderOK && !pend && opened == listed && (opened > 0 && last == "ret-combined:appended" || opened == 0 && (last == "ret-combined:fresh" || last == "ret-combined:appended")):
 			nOK++
+		case last == "ret-combined:?":
+			nUnknown++ // the list is built in a way this rule does not follow: no verdict on this path
 		default:
 			bad = append(bad, sq)
 		}
 	}
-	c.Check(!trunc && nOK > 0 && len(bad) == 0, rule, op.String(), "returns-combined", op.Pos(), "on every path without an error (%d paths, up to two destinations; %d longer ones cut) Open returns CombineWriteSyncers of exactly the sinks it opened (offending: %v)", len(seqs), cut, bad)
+	c.Check(!trunc && nOK+nUnknown > 0 && len(bad) == 0, rule, op.String(), "returns-combined", op.Pos(), "on every path without an error (%d paths, up to two destinations; %d longer ones cut) Open returns CombineWriteSyncers of exactly the sinks it opened (%d paths decided, %d build the list in a way that is not followed; offending: %v)", len(seqs), cut, nOK, nUnknown, bad)
 }
